@@ -251,7 +251,7 @@ def to_model(data_file: typing.IO, _config = None, progress_callback=lambda _: N
           continue
 
         subtitle_text = subtitle_text.strip('\r\n')\
-          .replace(r"\n\r", "\n")\
+          .replace("\r\n", "\n")\
           .replace(r"{bold}", r"<bold>")\
           .replace(r"{/bold}", r"</bold>")\
           .replace(r"{italic}", r"<italic>")\
